@@ -17,7 +17,7 @@ ID = "C06"
 META = {
     "rule": "sub-products: A = family F(n,m) WITHOUT well-posedness filter x every fixed subset (none, one, several, all, fixed landmarks, isolated fixed vertices) x "
     "fix_first_pose x max_iter alphabet (SE(3) graphs also with vertex quaternions whose norm is off by 3e-5..1e-4: fixed-pose and flag oracles only); D = far-off initial guesses (diverging runs) x every fixed subset x max_iter 20; S = solver-fault scripts: every placement of 0, 1 and 2 "
-    "deviating answers {all-NaN, garbage (1e300/inf) in the free rows, raise} within 5 solver calls x spanning graphs x every non-empty fixed subset; N = every edge replaced by its numerical-Jacobian twin (custom-edge path) x every non-empty fixed subset, one iteration vs the reduced step of the analytic graph; P = all vertices initialised from ONE shared pose object x every fixed subset (compared bitwise with a twin that uses distinct equal objects); H = histories of 2..3 "
+    "deviating answers {all-NaN, garbage (1e300/inf) in the free rows, raise} within 5 solver calls x spanning graphs x every non-empty fixed subset; N = every edge replaced by its numerical-Jacobian twin (custom-edge path) x every non-empty fixed subset, one iteration vs the reduced step of the analytic graph; P = all vertices initialised from ONE shared pose object x every fixed subset (compared bitwise with a twin that uses distinct equal objects); Y = deepcopy / pickle round trip of the graph, the copy is optimised (same marks, same result as the original construction, original untouched); H = histories of 2..3 "
     "consecutive optimize calls with every (fixed subset, fix_first_pose) chosen per call. Oracles: fixed poses bitwise unchanged in every outcome incl. exceptions; fixed flags exactly "
     "as documented; well-posed reduced problems: free vertices = reference reduced Gauss-Newton step (1 iteration) / closed-form reduced WLS optimum (R^n) and all poses finite. "
     "non-trivial = at least one fixed vertex AND (a free vertex moved or the solve failed)",
@@ -25,7 +25,7 @@ META = {
         "solver seam = module global graphslam.graph.spsolve; if it is not called the fault sub-product is skipped and evidence says solver_seam_active=false",
         "fault answers are restricted to what a sparse direct solver can produce (NaN vector for singular systems, garbage in coupled rows, an exception); a solver that returns non-zero for decoupled identity rows is not modelled",
     ],
-    "required_classes": ["nonunit_quaternion_vertices", "numeric_twin_edges", "shared_pose_object", "all_fixed", "none_fixed", "isolated_fixed_vertex", "fixed_landmark", "singular_natural", "several_fixed", "fault:nan", "fault:raise", "fault:garbage", "history", "diverged_or_nonfinite", "ffp_true", "ffp_false", "reduced_step_checked", "reduced_wls_checked"],
+    "required_classes": ["copied_graph", "fixed_pose_reassigned_between_calls", "nonunit_quaternion_vertices", "numeric_twin_edges", "shared_pose_object", "all_fixed", "none_fixed", "isolated_fixed_vertex", "fixed_landmark", "singular_natural", "several_fixed", "fault:nan", "fault:raise", "fault:garbage", "history", "diverged_or_nonfinite", "ffp_true", "ffp_false", "reduced_step_checked", "reduced_wls_checked"],
     "bounds": {"quick": "A: n=2 m<=2, n=3 m<=2, max_iter in {1,3}; S: 5 solver calls, <=2 deviations; H: 2 calls", "thorough": "A: n=2 m<=3, n=3 m<=2 x 3 vertex orders, max_iter in {1,2,3,5,20}; H: 3 calls"},
 }
 
@@ -132,6 +132,14 @@ def run_chunk(chunk, tier, seed):
         opts = [(list(f), ffp) for f in itertools.product((False, True), repeat=n) for ffp in (False, True)]
         for hist in itertools.product(opts, repeat=calls):
             _do(acc, {"t": "H", "types": types, "seed": seed, "edges": ms, "vorder": list(range(n)), "hist": [[f, p] for f, p in hist]})
+            if any(hist[-1][0]) and len({tuple(h[0]) for h in hist}) == 1:
+                # the same vertices stay fixed, but the caller RE-ASSIGNS their poses between the calls (a fixed pose is a constant only within a call)
+                _do(acc, {"t": "H", "types": types, "seed": seed, "edges": ms, "vorder": list(range(n)), "hist": [[f, p] for f, p in hist], "rebind_fixed": True})
+        # copies: deepcopy / pickle round trip of the whole graph, then the COPY is optimised
+        for fixed in itertools.product((False, True), repeat=n):
+            if any(fixed):
+                for how in ("deepcopy", "pickle"):
+                    _do(acc, {"t": "Y", "types": types, "seed": seed, "edges": ms, "vorder": list(range(n)), "fixed": list(fixed), "how": how})
     return acc
 
 
@@ -224,6 +232,8 @@ def _eval(case):
             return _eval_shared(case)
         if case["t"] == "N":
             return _eval_numeric(case)
+        if case["t"] == "Y":
+            return _eval_copy(case)
         return _eval_single(case)
     except Exception as ex:
         import traceback
@@ -374,6 +384,13 @@ def _eval_hist(case):
     flags = [False] * n
     outc = []
     for k, (fixed, ffp) in enumerate(case["hist"]):
+        if k >= 1 and case.get("rebind_fixed"):
+            for v, f in zip(verts, fixed):
+                if f:
+                    d = np.zeros(v.pose.COMPACT_DIMENSIONALITY)
+                    d[0] = 0.25
+                    d[-1] += 0.125
+                    v.pose = v.pose + d
         for v, f in zip(verts, fixed):
             v.fixed = bool(f)
         flags = [bool(f) for f in fixed]
@@ -403,7 +420,48 @@ def _eval_hist(case):
                     if exp[i][2] != after[i][2] and _bits(exp[i][2]) != _bits(after[i][2]):
                         msgs.append("call %d with fixed=%r: vertex id %r = %r but a fresh graph in the same state gives %r (state leaked between calls)" % (k + 1, eff, before[i][0], after[i][2], exp[i][2]))
                         break
-    return msgs, {"outcome": "hist:" + "".join(outc), "classes": ["history"], "calls": len(case["hist"]), "ref_compared": len(case["hist"]), "nontrivial": True}
+    return msgs, {"outcome": "hist:" + "".join(outc), "classes": ["history"] + (["fixed_pose_reassigned_between_calls"] if case.get("rebind_fixed") else []), "calls": len(case["hist"]), "ref_compared": len(case["hist"]), "nontrivial": True}
+
+
+def _eval_copy(case):
+    """the graph is copied with the standard library (deepcopy / pickle); the copy carries the same marks and behaves like a fresh graph"""
+    import copy
+    import pickle
+
+    msgs = []
+    n = len(case["types"])
+    spec = F.make_spec(case["types"], case["seed"], case["edges"], case["fixed"], case["vorder"], None, None)
+    g, verts, edges = GB.build(spec)
+    orig_bits = [_bits(a[2]) for a in GB.snapshot(verts)]
+    try:
+        g2 = copy.deepcopy(g) if case["how"] == "deepcopy" else pickle.loads(pickle.dumps(g))
+    except Exception as ex:
+        return ["%s of a graph raised %s: %s" % (case["how"], type(ex).__name__, ex)], {"outcome": "copy-raised", "classes": ["copied_graph"], "calls": 1, "nontrivial": True}
+    v2 = I.graph_vertices(g2)
+    flags = [bool(v.fixed) for v in v2]
+    if flags != [bool(f) for f in case["fixed"]]:
+        msgs.append("%s of the graph: fixed flags of the copy are %r, the original has %r" % (case["how"], flags, case["fixed"]))
+    before = GB.snapshot(v2)
+    outcome = "r"
+    try:
+        GB.optimize(g2, tol=0.0, max_iter=2, fix_first_pose=False)
+    except Exception:
+        outcome = "x"
+    after = GB.snapshot(v2)
+    _check_fixed(msgs, before, after, [bool(f) for f in case["fixed"]], "optimize on a %s of the graph" % case["how"])
+    g3, v3, _ = GB.build(spec)
+    try:
+        GB.optimize(g3, tol=0.0, max_iter=2, fix_first_pose=False)
+    except Exception:
+        pass
+    exp = GB.snapshot(v3)
+    for i in range(n):
+        if exp[i][2] != after[i][2] and _bits(exp[i][2]) != _bits(after[i][2]):
+            msgs.append("optimize on a %s of the graph: vertex id %r = %r but the original construction gives %r" % (case["how"], before[i][0], after[i][2], exp[i][2]))
+            break
+    if [_bits(a[2]) for a in GB.snapshot(verts)] != orig_bits:
+        msgs.append("optimizing the copy changed the original graph")
+    return msgs, {"outcome": "copy:" + outcome, "classes": ["copied_graph"], "calls": 1, "ref_compared": 1, "nontrivial": True}
 
 
 def _eval_shared(case):
